@@ -58,7 +58,13 @@ def _ordinal(I, a, k):
     return Sym(INT, libdt.ord_term(I, I.term(y), I.term(m), I.term(d)))
 
 
+def _date_with(I, a, k):
+    o, sec = I.resolve(a[0]), I.resolve(a[1])
+    return SDateTime(o, sec)
+
+
 NATIVE = {
+    'date_with': _date_with,
     'ordinal': _ordinal,
     'date_of_ordinal': _date_of_ordinal,
     'isdigits': _isdigits,
@@ -86,7 +92,7 @@ def str_fun(I, name, s, args):
         r = _LOWER(t)
         key = ('lower', t.get_id())
         if key not in I.p.ghost:
-            I.p.ghost[key] = True
+            I.p.ghost[key] = t     # pins the term (z3 reuses ids)
             I.p.assume(_LOWER(r) == r)      # idempotent
         return Sym(STR, r)
     if name == 'upper':
@@ -95,7 +101,7 @@ def str_fun(I, name, s, args):
         r = _STRIP(t)
         key = ('strip', t.get_id())
         if key not in I.p.ghost:
-            I.p.ghost[key] = True
+            I.p.ghost[key] = t     # pins the term (z3 reuses ids)
             I.p.assume(z3.And(z3.Contains(t, r), z3.Length(r) <= z3.Length(t), _STRIP(r) == r))
         return Sym(STR, r)
     raise Unsupported(f'str.{name} on symbolic string')
